@@ -201,6 +201,17 @@ class QuickPartitioner(BasePass):
                         extended = [q for q in location if q not in bin.qudits]
                         bin.blocked_qudits.update(extended)
 
+                # Block the barrier's qudits on every active bin ordered
+                # before it to prevent circular dependencies
+                for active_bin in active_bins:
+                    if active_bin is None:
+                        continue
+
+                    indirect = active_bin.blocked_qudits
+                    indirect = indirect.union(active_bin.qudits)
+                    if len(indirect.intersection(location)) != 0:
+                        active_bin.blocked_qudits.update(location)
+
                 # Track the barrier to restore it in partitioned circuit
                 pending_bins.append(BarrierBin(point, location, circuit))
                 continue
